@@ -72,6 +72,8 @@ class introspect_fun(FnSpec):
         g["inspect_lambda_condition"] = Model(self.m_lambda_ast, "inspect_lambda_condition")
         g["ast"] = ObjVal("astmod", FunctionDef=_ast.FunctionDef, Lambda=_ast.Lambda)
         self.classes["astmod"] = {"parse": Model(self.m_parse, "ast.parse")}
+        g["textwrap"] = ObjVal("textwrap")
+        self.classes["textwrap"] = {"dedent": Model(lambda eng, a, k, n: a[1], "textwrap.dedent (the same text, common indentation removed)")}
         g["InspectFunction"] = ObjVal("InspectFunction")
         self.classes["InspectFunction"] = {"inspect_fun": Model(self.m_inspect_fun, "contract:InspectFunction.inspect_fun")}
         g["_all_paths"] = Model(lambda eng, a, k, n: Opaque("paths of the analysed functions"), "_all_paths")
